@@ -13,6 +13,16 @@ CHECKS = {
     note='Coq kernel + vm_compute; hand-written model tied by correspondence (extracted OCaml vs Python); Python '
          'str.upper/int()/re modelled on the ASCII classes the label grammar uses; 1 recorded known finding (A0/A01).',
     technique='Coq proof (induction, loop invariant) + exhaustive model/implementation correspondence'),
+ 'C20': dict(
+    text='Coq theorems, by induction over all histories with arbitrary callback scripts (callbacks that subscribe, '
+         'unsubscribe and emit during delivery) for every returning run: table = history-based specification, each '
+         'emit delivers exactly its start-of-emit snapshot in subscription order with args and bound ctx, once <= 1 '
+         'and called by the first completed emit, name isolation, exact effect of off(name)/off(name,cb). Tied to '
+         'tinyemitter.py by random scripted histories on the real Emitter and on Parser instances.',
+    design='7/C20',
+    note='Python call stack modelled as a worklist machine; non-returning histories (RecursionError) excluded by '
+         'hypothesis; callback identity = function identity; correspondence is sampled (random histories), not exhaustive.',
+    technique='Coq proof (invariant over worklist machine, history-based spec) + scripted-history correspondence'),
 }
 PENDING = {}
 def main():
